@@ -21,6 +21,13 @@ def check(repo: Repo, rep: Report) -> None:
         "dispose chains to Subject.dispose. `value` is never truth-tested (C08).")
     rep.assumptions += ["Subject's own rules (C20) hold for the inherited methods"]
     SC.rules(rep, {"B1-snapshot": 1, "B2-state-before-callout": 1, "B3-subscribe-branches": 3, "B5-dispose": 1})
+    # state fields are read under the lock only; fan-outs deliver parameters / locked snapshots
+    _cls = repo.fn("reactivex/subject/behaviorsubject.py", "BehaviorSubject")
+    SC.rule_locked_reads(rep, _cls)
+    for _mn in ("_on_next_core", "_on_error_core", "_on_completed_core"):
+        _m = _cls.child(_mn) or repo.fn("reactivex/subject/subject.py", "Subject").child(_mn)
+        if _m is not None:
+            SC.rule_delivery_argument(rep, _m)
     rep.rule("V1-current-value", "new subscribers get self.value first; the value field is written by __init__ and _on_next_core only", floor=3)
     cls = repo.fn(B, "BehaviorSubject")
     sub = repo.fn(B, "BehaviorSubject._subscribe_core")
